@@ -207,6 +207,9 @@ func genRealProvider(t *rapid.T, p *PoolCase, failing bool) {
 // zeroShots: the pool's profile does not hold a single shot.
 func (p PoolCase) zeroShots() bool { return p.Profile != "long" && p.Tokens == 0 }
 
+// crowdOneIn: one case in so many has a crowded pool (set per tier by TestOutcome).
+var crowdOneIn = 20
+
 // crowdSizes: instance counts of a crowded pool: well beyond the handful the engine's own tests use and beyond any
 // fixed-size buffer of results one might expect inside the engine.
 var crowdSizes = []int{100, 150, 200, 300, 400, 600}
@@ -245,9 +248,10 @@ func genCase(t *rapid.T) Case {
 	n := rapid.SampledFrom([]int{1, 1, 1, 2, 3}).Draw(t, "pools")
 	mode := rapid.SampledFrom([]string{"fault", "fault", "fault", "cancel", "both", "none"}).Draw(t, "mode")
 	faultyPool := rapid.IntRange(0, n-1).Draw(t, "faultyPool")
-	// one case in twenty has a crowded pool (rapid prefers the ends of a range)
+	// one case in twenty (quick tier; one in fifty of the 64 times larger thorough tier) has a crowded pool (rapid
+	// prefers the ends of a range)
 	crowdPool := -1
-	if rapid.IntRange(0, 19).Draw(t, "crowd") == 11 {
+	if rapid.IntRange(0, crowdOneIn-1).Draw(t, "crowd") == 11 {
 		crowdPool = rapid.IntRange(0, n-1).Draw(t, "crowdPool")
 	}
 	for i := 0; i < n; i++ {
@@ -601,9 +605,13 @@ func once(c Case, o *vf.Obs, classify bool) error {
 	}
 	cancelInProgress := c.Cancel != "" && cancelAt.Before(runReturned)
 	var reached []string
+	var realErrs []string // texts of the errors of the real providers that had failed by now
 	for i, pr := range prs {
 		for _, k := range pr.reached() {
 			reached = append(reached, fmt.Sprintf("pool%d:%s", i, k))
+			if k == "provider" && pr.real != nil {
+				realErrs = append(realErrs, pr.real.errText())
+			}
 		}
 	}
 	// ---- outcome ----
@@ -612,8 +620,8 @@ func once(c Case, o *vf.Obs, classify bool) error {
 		(strings.Contains(runErr.Error(), "shoot panic") &&
 			(strings.Contains(runErr.Error(), fmt.Sprint(fake.PanicMarkerInt)) || strings.Contains(runErr.Error(), "nil map"))))
 	// the failure of a real provider is carried when the run's error shows the text of the error its Run returned
-	for _, pr := range prs {
-		if pr.real != nil && pr.real.FaultReached.Load() && runErr != nil && strings.Contains(runErr.Error(), pr.real.errText()) {
+	for _, text := range realErrs {
+		if text != "" && runErr != nil && strings.Contains(runErr.Error(), text) {
 			carriesFault = true
 		}
 	}
@@ -967,5 +975,6 @@ func allOthersDone(prs []*poolRun, pr *poolRun, at time.Time) bool {
 
 func TestOutcome(t *testing.T) {
 	r := vf.Start(t, "C05")
+	crowdOneIn = r.Pick(20, 50)
 	vf.Check(r, genCase, check)
 }
